@@ -109,6 +109,19 @@ def cscd(rng, std, pk):
             "device_type_specific_parameters": dts}
 
 
+SEG_NAMES = {
+    0x00: ("block -> stream", "Copy from block device to stream device"),
+    0x01: ("stream -> block", "Copy from stream device to block device"),
+    0x02: ("block -> block", "Copy from block device to block device"),
+    0x0B: ("block -> stream&application client",
+           "Copy from block device to stream device and hold a copy of processed data for the application client"),
+    0x0C: ("stream -> block&application client",
+           "Copy from stream device to block device and hold a copy of processed data for the application client"),
+    0x0D: ("block -> block&application client",
+           "Copy from block device to block device and hold a copy of processed data for the application client"),
+}
+
+
 def segment(rng, std):
     s, d = ("source_target_descriptor_id", "destination_target_descriptor_id") if std == 4 else \
         ("source_cscd_descriptor_id", "destination_cscd_descriptor_id")
@@ -242,9 +255,23 @@ def run(chk, replay=None):
                        "g_sense": rng.getrandbits(1), "immed": rng.getrandbits(1), "list_identifier": pick(rng, 2 ** 32 - 1)}
                 kw = dict(hdr, cscd_descriptor_list=tl, segment_descriptor_list=sl, inline_data=inline)
             inp = copy.deepcopy(kw)
-            b = (lambda K=K, op=op, kw=copy.deepcopy(kw): K(op, **kw))
+            # the library also takes the descriptor type codes by the names / descriptions of its tables: same meaning
+            kwl = copy.deepcopy(kw)
+            for sd in kwl["segment_descriptor_list"]:
+                sd["descriptor_type_code"] = rng.choice([sd["descriptor_type_code"]] + list(SEG_NAMES[sd["descriptor_type_code"]]))
+            for cd in kwl["target_descriptor_list" if std == 4 else "cscd_descriptor_list"]:
+                if rng.random() < 0.3:
+                    cd["descriptor_type_code"] = "Identification descriptor target descriptor" if std == 4 else \
+                        "Identification Descriptor CSCD descriptor"
+            b = (lambda K=K, op=op, kw=kwl: K(op, **kw))
             b.cdb_args = {}
             record(fmt, cls, setname, b, inp)
+            if i % 3 == 0:
+                # ... and builds a second command from the very same descriptor objects (which the library may have
+                # annotated): it must be the same list again
+                b2 = (lambda K=K, op=op, kw=kwl: K(op, **kw))
+                b2.cdb_args = {}
+                record(fmt, cls, setname, b2, inp)
             # the caller reuses one of its segment dictionaries for a descriptor of another type / size
             if i % 4 == 0:
                 s_, d_ = ("source_target_descriptor_id", "destination_target_descriptor_id") if std == 4 else \
